@@ -52,10 +52,16 @@ CLAIMED = {
  "C17": ("world+query", "Coq proofs: archetype lists only grow (c17_grows), generation theorem, and an invariant over "
                         "multi-world histories for one prepared query (c17_fresh); differential check with prepared "
                         "queries shared between two worlds"),
+ "C18": ("tracker", "Coq proofs over a model of track() with arbitrary consumption scripts: first report of each kind = the "
+                    "difference at the call, final hidden state = snapshot regardless of what was read (induction over the "
+                    "script, commuting drains), diff theorem between consecutive calls; differential check with random "
+                    "mutation rounds and consumption scripts + the harness's own snapshot oracle"),
  "C19": ("bits", "Coq proof: bit-vector arithmetic lemmas (N.land/shift as mod/div) + lia, for all 64-bit patterns; "
                  "differential check vs the real Entity (to_bits, from_bits, Eq, Ord, Hash, serde)"),
 }
 ENGINES = [
+ {"name": "tracker", "path": "coq/Model/Tracker.v, harness/src/tracker_engine.rs", "serves_properties": ["C18"],
+  "kind_free_text": "snapshot-difference model of ChangeTracker with consumption scripts; differential check + snapshot oracle"},
  {"name": "world+containers", "path": "coq/Model/Containers.v, harness/src/cont_engine.rs", "serves_properties": ["C03", "C11", "C12", "C13"],
   "kind_free_text": "models of the bump arena, EntityBuilder(Clone)/BuiltEntityClone, ColumnBatchBuilder, CommandBuffer; container opcodes of the script interpreter; drop ledger"},
  {"name": "guards", "path": "coq/Model/Guards.v, harness/src/guard_engine.rs", "serves_properties": ["C05"],
